@@ -20,17 +20,20 @@ type File struct {
 	Path string `json:"path"`           // slash path below the base
 	Kind string `json:"kind"`           // whole | single:<kind> | free
 	Doc  any    `json:"doc"`
+	YAML bool   `json:"yaml,omitempty"` // stored as YAML text (a prefix cut at a line boundary may still parse)
 }
 
 // Spec is the run spec of SIM-LOADER.
 type Spec struct {
 	Marker         string             `json:"marker"`
-	RootForm       string             `json:"root_form"` // data | reader | data_path_abs | data_path_http | file_rel | file_abs | file_url | http | https
-	Reader         string             `json:"reader"`    // func | default
-	External       bool               `json:"external"`  // IsExternalRefsAllowed
+	RootUser       string             `json:"root_user,omitempty"` // http(s) root forms: credentials in the root's URL (files next to the root are served under them)
+	RootForm       string             `json:"root_form"`           // data | reader | data_path_abs | data_path_http | file_rel | file_abs | file_url | http | https
+	Reader         string             `json:"reader"`              // func | default
+	External       bool               `json:"external"`            // IsExternalRefsAllowed
 	Reuse          bool               `json:"reuse,omitempty"`
 	RootFragRefs   []string           `json:"root_frag_refs,omitempty"`   // fragment references planted in the root at positions the loader visits whose fragment may not exist in the target
 	ThenResolveOff bool               `json:"then_resolve_off,omitempty"` // afterwards, on the same Loader: switch turned off, root unmarshalled by the caller, ResolveRefsIn(doc, location)
+	ThenOther      bool               `json:"then_other,omitempty"`       // switch off: another document of the layout is loaded afterwards as a root of its own on the same Loader
 	ThenMemory     any                `json:"then_memory,omitempty"`      // a document without external references loaded from memory afterwards on the same Loader
 	MapSeed        uint64             `json:"map_seed,omitempty"`         // 0 = sorted map iteration inside the loader; else seeded permutation
 	Files          []File             `json:"files"`
@@ -112,11 +115,15 @@ func AbsLoc(s *Spec, i int) string {
 	if f.Host != "" {
 		return fmt.Sprintf("http://%s-%s.test/%s", f.Host, s.Marker, f.Path)
 	}
+	user := ""
+	if s.RootUser != "" {
+		user = s.RootUser + "@"
+	}
 	switch s.RootForm {
 	case "http", "data_path_http":
-		return fmt.Sprintf("http://h0-%s.test/%s", s.Marker, f.Path)
+		return fmt.Sprintf("http://%sh0-%s.test/%s", user, s.Marker, f.Path)
 	case "https":
-		return fmt.Sprintf("https://h0-%s.test/%s", s.Marker, f.Path)
+		return fmt.Sprintf("https://%sh0-%s.test/%s", user, s.Marker, f.Path)
 	case "file_url":
 		return fmt.Sprintf("file:///sim/%s/%s", s.Marker, f.Path)
 	case "file_abs", "data_path_abs":
@@ -174,6 +181,10 @@ func (g *gen) slot(kind string, depth int) any {
 			}
 			if t.file != g.cur {
 				frag := t.frag
+				if strings.Contains(frag, "{id}") && g.r.Chance(1, 3) {
+					// the same path template with another variable name is another key: must not resolve
+					frag = strings.Replace(frag, "{id}", "{ident}", 1)
+				}
 				if strings.HasPrefix(frag, "/components/") && g.r.Chance(1, 8) {
 					if g.r.Chance(1, 3) {
 						// a pointer token that is only a prefix of a real member name: must not resolve
@@ -196,6 +207,11 @@ func (g *gen) slot(kind string, depth int) any {
 	case roll < g.canP+g.extP+12:
 		// internal reference to a component of this document
 		if pl, ok := plural[kind]; ok && g.s.Files[g.cur].Kind == "whole" {
+			if g.r.Chance(1, 10) {
+				// a component this document has only sometimes: when it has not, the reference dangles and
+				// the loader falls back to looking the fragment up in the raw document (which it re-reads)
+				return map[string]any{"$ref": "#/components/" + pl + "/U" + kind}
+			}
 			return map[string]any{"$ref": "#/components/" + pl + "/T" + kind}
 		}
 	}
@@ -325,7 +341,7 @@ func (g *gen) whole(isRoot bool) any {
 		}
 		comps[pl] = m
 	}
-	paths := map[string]any{"/t": g.element("pathItem", 3)}
+	paths := map[string]any{"/t": g.element("pathItem", 3), "/things/{id}": g.element("pathItem", 2)}
 	if g.r.Chance(1, 2) {
 		paths["/u"] = g.slot("pathItem", 3)
 	}
@@ -349,6 +365,12 @@ func Gen(seed uint64, prop, tier string) *Spec {
 	r := simfw.NewRNG(seed)
 	s := &Spec{Marker: fmt.Sprintf("%012x", seed&0xffffffffffff)}
 	s.RootForm = simfw.Pick(r, []string{"data", "reader", "data_path_abs", "data_path_http", "file_rel", "file_abs", "file_abs", "file_url", "http", "https"})
+	switch s.RootForm {
+	case "http", "https", "data_path_http":
+		if r.Chance(1, 4) {
+			s.RootUser = "ci:s3cret"
+		}
+	}
 	s.Reader = simfw.Pick(r, []string{"func", "func", "default"})
 	s.External = r.Chance(3, 5)
 	s.Reuse = r.Chance(1, 6)
@@ -403,6 +425,7 @@ func Gen(seed uint64, prop, tier string) *Spec {
 				}
 			}
 			g.targets = append(g.targets, target{i, "/paths/~1t", "pathItem"})
+			g.targets = append(g.targets, target{i, "/paths/~1things~1{id}", "pathItem"})
 		case strings.HasPrefix(f.Kind, "single:"):
 			if i > 0 {
 				g.targets = append(g.targets, target{i, "", strings.TrimPrefix(f.Kind, "single:")})
@@ -436,6 +459,11 @@ func Gen(seed uint64, prop, tier string) *Spec {
 			f.Doc = g.element(strings.TrimPrefix(f.Kind, "single:"), 3)
 		}
 	}
+	for i := range s.Files {
+		if i > 0 && r.Chance(1, 3) {
+			s.Files[i].YAML = true
+		}
+	}
 	s.Decoys = append(s.Decoys, "decoy-"+s.Marker+".json", "specs/decoy-"+s.Marker+".json")
 	// faults on non-root reads (and sometimes the root)
 	if r.Chance(1, 3) && len(s.Files) > 1 {
@@ -445,12 +473,22 @@ func Gen(seed uint64, prop, tier string) *Spec {
 			if fi == 0 && r.Chance(3, 4) {
 				fi = r.Range(1, len(s.Files)-1)
 			}
-			s.Faults = append(s.Faults, simenv.ReadFault{Loc: fmt.Sprintf("file:%d", fi), Kind: simfw.Pick(r, []string{"enoent", "eio", "torn", "http5xx", "http_reset"}), Nth: r.Intn(3), Cut: r.Range(1, 200)})
+			s.Faults = append(s.Faults, simenv.ReadFault{Loc: fmt.Sprintf("file:%d", fi), Kind: simfw.Pick(r, []string{"enoent", "eio", "torn", "http5xx", "http_reset", "http_short"}), Nth: r.Intn(3), Cut: r.Range(1, 200)})
 		}
 	}
 	if r.Chance(1, 8) && len(s.Files) > 1 {
 		s.Changed = append(s.Changed, r.Range(0, len(s.Files)-1))
 	}
+	if !s.External && s.Reuse && r.Chance(1, 2) {
+		// the second read of the root fails: whatever re-reads the root (a fallback lookup of a fragment in
+		// the raw document) meets an error while the switch is off
+		nth := 2
+		if strings.HasPrefix(s.RootForm, "data_path") {
+			nth = 0 // the content was handed over: any read of the root's location is a re-read
+		}
+		s.Faults = append(s.Faults, simenv.ReadFault{Loc: "file:0", Kind: "eio", Nth: nth})
+	}
+	s.ThenOther = !s.External && r.Chance(1, 3)
 	s.ThenResolveOff = s.External && r.Chance(1, 6)
 	if r.Chance(1, 5) {
 		// internal references only; sometimes one that dangles here but names a component the earlier root has
